@@ -1,8 +1,12 @@
 (* Properties_C01.v — C01: export -> file -> read returns exactly the records that were buffered.
-   The end-to-end statement is decomposed along the layers of the model; the pieces proved here are full-strength each,
-   their composition into one theorem over whole histories is NOT proved (see C01_..._partial names and DESIGN.md):
-   the correspondence run and the independent reader check the composition on every run.  Only statements live here. *)
-Require Import Base Cbor EncoderModel DecoderModel DecoderProofs Schema SchemaProofs Block BlockProofs Exporter ExporterProofs Properties_C09.
+   [C01_end_to_end] is the composition over whole histories (records -> tables/items -> block values -> bytes through the
+   encoder -> outputs -> file reader -> block reader -> generic-record readers); the theorems before it are its layers, each
+   full-strength.  Address-event totals are proved at the level of block contents ([C01_aec_totals] + blocks read back
+   equal), their decoded view is not composed into [C01_end_to_end]; that the values stay inside the ranges of the format
+   ([typed_x]) is a hypothesis, decidable by [typed_xb] and evaluated by the harness on every generated history.
+   Only statements live here. *)
+Require Import Base Cbor EncoderModel DecoderModel DecoderProofs Schema SchemaProofs Timestamp TimestampProofs Block BlockProofs Exporter ExporterProofs Properties_C09
+               E2ESpec BlockDecode ViewProofs BlockRead FileProofs EndToEnd TypeCheck.
 Local Open Scope N_scope.
 
 (* layer 1 (bytes <-> tree): whatever block value the exporter serialises, the reader's generic structure reader gets the
@@ -45,6 +49,82 @@ Theorem C01_aec_totals : forall x o k,
     end.
 Proof. exact xstep_conserves_aec. Qed.
 Print Assumptions C01_aec_totals.
+
+(* layer 3b (items -> records): what a stored query/response item decodes to — in the tables as they are when it is stored and
+   after any later insertion — is the submitted record with exactly the hint-disabled members removed ([exp_qr] never looks
+   at a table); and an item is stored iff at least one member survives the hints.  Same for malformed messages. *)
+Theorem C01_decode_inverts_build : forall bp gr tb tb', tb_ext (fst (build_qr bp gr tb)) tb' ->
+  gen_qr (tbs_of_tables tb') (VR (snd (build_qr bp gr tb))) = Some (VR (exp_qr bp gr)) /\
+  filled (snd (build_qr bp gr tb)) = filled (exp_qr bp gr).
+Proof. exact gen_build_qr. Qed.
+Print Assumptions C01_decode_inverts_build.
+Theorem C01_decode_inverts_build_mm : forall gm tb tb', tb_ext (fst (build_mm gm tb)) tb' ->
+  gen_mm (tbs_of_tables tb') (VR (snd (build_mm gm tb))) = Some (VR (exp_mm gm)) /\
+  filled (snd (build_mm gm tb)) = filled (exp_mm gm).
+Proof. exact gen_build_mm. Qed.
+Print Assumptions C01_decode_inverts_build_mm.
+Theorem C01_decode_aec_key : forall ga tb tb' c, tb_ext (fst (add_to tb T_ip (oval (nth_o ga 3%nat)))) tb' ->
+  gen_aec (tbs_of_tables tb')
+          (VR [nth_o ga 0%nat; nth_o ga 1%nat; Some (VN (snd (add_to tb T_ip (oval (nth_o ga 3%nat))))); nth_o ga 2%nat; Some (VN 0)], c)
+  = Some (exp_aec ga c).
+Proof. exact gen_aec_key. Qed.
+Print Assumptions C01_decode_aec_key.
+
+(* layer 4 (block value -> block): the block reader applied to the value a block is serialised as returns that block: record
+   times exact to the tick (offsets out, absolute times back), address-event counts per key, statistics, tables *)
+Theorem C01_block_reads_back : forall ps b, blk_params_ok ps b -> good_blk b ->
+  block_of_val ps (blk_val b) = Ret (rb_of b) /\ blk_of_rb (rb_of b) = b.
+Proof. exact block_of_val_spec. Qed.
+Print Assumptions C01_block_reads_back.
+
+(* the decoded view of an exporter is an append-only log of the hint-filtered submitted records, over every history *)
+Theorem C01_view_is_log : forall ops x, den_inv x ->
+  view_qrs (xrun x ops) = view_qrs x ++ map Some (log_qr x ops) /\
+  view_mms (xrun x ops) = view_mms x ++ map Some (log_mm x ops) /\ den_inv (xrun x ops).
+Proof. exact xrun_view. Qed.
+Print Assumptions C01_view_is_log.
+
+(* THE COMPOSITION.  For every preamble within the ranges of the format and every admissible history (while an output holds a block only parameter sets of
+   its header are activated; record times normalised and below 2^63 ticks, tick rate >= 1) whose values stay within
+   the ranges of the format: there are the closed outputs (oldest first) and the open one, each with the preamble in force
+   when it got its header and its blocks, such that
+     - the bytes of every output are header ++ blocks ++ break (or nothing), and the library's file reader run on those bytes
+       returns that preamble and exactly those blocks, consuming the whole file ([reads_back]);
+     - the records the generic readers return for those blocks, output after output, followed by those of the block still
+       buffered, are the submitted records with their hint-disabled members removed, in submission order, each once. *)
+Theorem C01_end_to_end : forall pre ops, typed_pre pre -> adm0 pre ops -> typed_x (xrun (x_new pre) ops) ->
+  let x := xrun (x_new pre) ops in
+  exists (last : val) cur closed,
+    rev (x_closed x) = map (fun pb => file_bytes (fst pb) (snd pb)) (rev closed) /\
+    destroy x = file_bytes last cur /\
+    Forall reads_back (rev closed ++ [(last, cur)]) /\
+    flat_map file_view_qr (rev closed ++ [(last, cur)]) ++ blk_view_qr (x_blk x) = map Some (log_qr (x_new pre) ops) /\
+    flat_map file_view_mm (rev closed ++ [(last, cur)]) ++ blk_view_mm (x_blk x) = map Some (log_mm (x_new pre) ops).
+Proof. exact end_to_end. Qed.
+Print Assumptions C01_end_to_end.
+
+(* the hypotheses are decidable, and satisfiable by a history with all three record kinds, a rotation and an explicit write *)
+Theorem C01_hypotheses_decidable : forall pre ops,
+  has_tyb FilePreamble pre = true -> admb (x_new pre) 0 ops = true -> typed_xb (xrun (x_new pre) ops) = true ->
+  typed_pre pre /\ adm0 pre ops /\ typed_x (xrun (x_new pre) ops).
+Proof.
+  intros pre ops H1 H2 H3. split; [apply (proj1 has_tyb_sound); exact H1|]. split; [apply admb_sound; exact H2|apply typed_xb_sound; exact H3].
+Qed.
+Print Assumptions C01_hypotheses_decidable.
+
+Example C01_end_to_end_nonvacuous :
+  let pre := VR [Some (VN 1); Some (VN 0); None; Some (VL [VR [Some (VR [Some (VN 1000); Some (VN 10);
+                 Some (VR [Some (VN 262143); Some (VN 131071); Some (VN 3); Some (VN 3)]); Some (VL []); Some (VL []);
+                 None; None; None; None; None; None; None]); None]])] in
+  let gr := [Some (VL [VN 5; VN 1]); Some (VS [10; 0; 0; 1]); Some (VN 53)] in
+  let gr2 := [Some (VL [VN 4; VN 999]); Some (VS [10; 0; 0; 2]); None; Some (VN 7)] in
+  let ga := [Some (VN 1); None; None; Some (VS [10; 0; 0; 1])] in
+  let gm := [Some (VL [VN 6; VN 0]); Some (VS [10; 0; 0; 3]); Some (VN 99)] in
+  let ops := [XQr gr None; XAec ga None; XMm gm None; XQr gr2 None; XRot true; XQr gr None; XWb] in
+  has_tyb FilePreamble pre = true /\ admb (x_new pre) 0 ops = true /\ typed_xb (xrun (x_new pre) ops) = true /\
+  length (x_closed (xrun (x_new pre) ops)) = 1%nat /\ length (log_qr (x_new pre) ops) = 3%nat /\ length (log_mm (x_new pre) ops) = 1%nat /\
+  (0 < length (destroy (xrun (x_new pre) ops)))%nat.
+Proof. vm_compute. repeat split; lia. Qed.
 
 Example C01_nonvacuous :
   let pre := VR [Some (VN 1); Some (VN 0); None; Some (VL [VR [Some (VR [Some (VN 1000); Some (VN 10);
